@@ -64,7 +64,16 @@ def run_cases(ctx, cases, label, scratch):
         if r[0] == 'timeout':
             reqs.append(None)
             continue
-        rq = ET.model_request(c.tree, c.top, c.opts, c.allow_create, c.allow_xdev, c.ops,
+        mtree, mops = c.tree, c.ops
+        k = c.meta.get('time_scale')
+        if k:
+            # sub-second file times: the model counts in 1/k seconds (all of its time comparisons are scale-free)
+            mtree = c.tree.clone()
+            for n in mtree.nodes.values():
+                if 'mtime' in n:
+                    n['mtime'] = int(round(n['mtime'] * k))
+            mops = [([op[0], op[1], op[2], [int(round(x * k)) for x in op[3]]] if op[0] == 'verify' else op) for op in c.ops]
+        rq = ET.model_request(mtree, c.top, c.opts, c.allow_create, c.allow_xdev, mops,
                               GT.order_key_for(c.meta.get('order_seed', 0)), c.hash_names, c.faults)
         ET.preseed_oracles(rq, r)
         reqs.append(rq)
@@ -196,6 +205,18 @@ def gen_verify_case(r, n_mut=None):
             ops.append(['find_dist_entry', 'dist-%d.tar.gz' % r.randint(0, 3), r.choice(paths)])
     if r.random() < 0.3:
         ops.append(['loaded'])
+    if r.random() < 0.12:
+        # a listed file changed (same size) a fraction of a second after the moment of the last verification
+        cand = [p for p in sorted(files) if files[p] and t.lookup(p) is not None and t.nodes[t.lookup(p)]['k'] == 'f']
+        if cand:
+            p = r.choice(cand)
+            lm = 1500000000 + r.randint(0, 1000)
+            node = t.nodes[t.lookup(p)]
+            node['data'] = bytes([node['data'][0] ^ 1]) + node['data'][1:]
+            node['mtime'] = lm + r.choice([0.5, 0.25, 0.999, 0.0, -0.5, 1.0])
+            c.meta['time_scale'] = 1000
+            c.meta['mutations'] = muts + ['subsecond-change:' + p]
+            ops = [['verify', '', r.choice([0, 1, 1]), [lm]]] + ops[:1]
     c.ops = ops
     return c
 
